@@ -31,7 +31,8 @@ RULE = ("seeded class-based zoo over 34 classes (7 core labelled-matrix base cla
         "arrays present/absent, taxa/variants grouped/ungrouped, 1-3 traits, label alphabets ASCII / non-ASCII / with "
         "separators, sorted / unsorted label order, NaN data, standardised / arbitrary location-scale; table readers told "
         "their columns by name / by integer position / mixed, trait columns inferred or listed explicitly, label columns "
-        "moved to other places of the frame, optional label columns switched off on both sides; genetic maps without spline / "
+        "moved to other places of the frame, every subset of the optional label / group columns switched off on both sides; "
+        "hyperparameter dictionaries with containers nested two and three levels deep (copy cases); genetic maps without spline / "
         "default spline / spline of every supported kind (linear, slinear, nearest, nearest-up, zero, previous, next, quadratic, "
         "cubic) and fill value (extrapolate or a number), built by the constructor options or by build_spline(); group paths None / "
         "nested / trailing slash / non-ASCII / with spaces; file given as str / Path / open h5py.File; write histories of "
@@ -389,7 +390,32 @@ def build_gmap(g, cls_name, richness, lcls):
     return Spec(obj, cls_name, meta)
 
 
+def _nested_value(g, depth=0):
+    """Free-form parameter value with mutable containers nested two or more levels deep."""
+    k = pick(g, ["dict in dict", "list in list", "array in dict in dict", "array in list in dict", "dict in list"])
+    if k == "dict in dict":
+        v = {"prior": {"scale": float(g.normal()), "df": int(g.integers(1, 9))}}
+    elif k == "list in list":
+        v = [[int(x) for x in g.integers(0, 9, 3)], [int(x) for x in g.integers(0, 9, 2)]]
+    elif k == "array in dict in dict":
+        v = {"prior": {"scale": g.normal(size=2), "grid": {"lo": g.normal(size=1)}}}
+    elif k == "array in list in dict":
+        v = {"folds": [g.integers(0, 9, 3), g.integers(0, 9, 2)]}
+    else:
+        v = [{"name": "a", "w": g.normal(size=2)}, {"name": "b", "w": [1.0, 2.0]}]
+    return v, k
+
+
+NESTED_PARAMS = [False]     # set by the copy cases: free-form parameter slots then also hold nested containers (formats that
+                            # store hyperparameters accept flat dictionaries of scalars / strings / arrays only)
+
+
 def _hyper(g, richness, lcls):
+    if NESTED_PARAMS[0] and g.random() < 0.6:
+        d = {"hp0": float(g.normal())} if g.random() < 0.5 else {}
+        for i in range(int(g.integers(1, 3))):
+            d["nested%d" % i], _ = _nested_value(g)
+        return d, "nested hyperparameter containers"
     if not _rich(g, richness):
         return None, "no hyperparameters"
     d = {}
@@ -756,11 +782,28 @@ def switch_off_optional(g, spec, wk, rk, skip):
     elif kind in CMAT_CLASSES:
         if wk.get("taxa_grp_col") is not None and o.taxa_grp is not None and g.random() < 0.15:
             wk["taxa_grp_col"] = rk["taxa_grp_col"] = None; skip.add("taxa_grp"); off.append("taxa_grp")
-    elif kind in VMAT_CLASSES and o.taxa_grp is not None and g.random() < 0.15:
-        for k in list(wk):
-            if k.endswith("_grp_col") or k == "taxa_grp_colnames":
-                wk[k] = rk[k] = None
-        skip.add("taxa_grp"); off.append("taxa_grp")
+    elif kind in VMAT_CLASSES and o.taxa_grp is not None and g.random() < 0.6:
+        # every subset of the optional group columns (one per parental role), switched consistently on both sides; in a
+        # complete table every taxon occurs in every role, so any non-empty subset still carries all group labels
+        if "taxa_grp_colnames" in wk and wk["taxa_grp_colnames"] is not None:
+            keep = [bool(g.random() < 0.5) for _ in wk["taxa_grp_colnames"]]
+            new = [c_ if k_ else None for c_, k_ in zip(wk["taxa_grp_colnames"], keep)]
+            wk["taxa_grp_colnames"] = list(new); rk["taxa_grp_colnames"] = list(new)
+            off += ["taxa_grp column %d" % i for i, k_ in enumerate(keep) if not k_]
+            anyon = any(keep)
+        else:
+            gk = [k for k in wk if k.endswith("_grp_col")]
+            keep = {k: bool(g.random() < 0.5) for k in gk}
+            for k in gk:
+                if not keep[k]:
+                    wk[k] = rk[k] = None; off.append(k)
+            anyon = any(keep.values())
+        if not anyon:
+            skip.add("taxa_grp")
+    if kind == "ExtendedGeneticMap":        # optional label columns of the reader, each independently
+        for k, f in (("vrnt_name_col", "vrnt_name"), ("vrnt_fncode_col", "vrnt_fncode")):
+            if rk.get(k) is not None and g.random() < 0.15:
+                rk[k] = None; skip.add(f); off.append(k)
     return off
 
 
@@ -1402,7 +1445,11 @@ def case_copy(ctx, c):
     g = ctx.rng("cp", c)
     coords = [c, "cp"]
     kind = ZOO[c % len(ZOO)]
-    spec = build(g, kind)
+    NESTED_PARAMS[0] = True
+    try:
+        spec = build(g, kind)
+    finally:
+        NESTED_PARAMS[0] = False
     obj, meta = spec.obj, spec.meta
     src = OE.freeze(OE.observe(obj))
     dg = OE.digest(src)
@@ -1459,11 +1506,19 @@ def case_copy(ctx, c):
         nmut = 0
         for path, a in OE.arrays(cobs):
             nmut += bool(OE.scramble(a, g))
-        hp = cobs.get("hyperparams")
-        if isinstance(hp, dict):
-            hp["__mutated__"] = 1; nmut += 1
-        if isinstance(cobs.get("gpmod"), dict) and isinstance(cobs["gpmod"].get("hyperparams"), dict):
-            cobs["gpmod"]["hyperparams"]["__mutated__"] = 1; nmut += 1
+        # every dict / list of the free-form parameter slots, at every nesting depth, is changed in place
+        slots = [cobs.get("hyperparams")]
+        if isinstance(cobs.get("gpmod"), dict):
+            slots.append(cobs["gpmod"].get("hyperparams"))
+        deepest = 0
+        for slot in slots:
+            for depth, cont in OE.containers(slot):
+                if isinstance(cont, dict):
+                    cont["mutated@%d" % depth] = depth
+                else:
+                    cont.append("mutated@%d" % depth)
+                nmut += 1; deepest = max(deepest, depth)
+        ctx.sumnote("deep copies mutated in a container nested two or more levels deep", 1 if deepest >= 1 else 0)
         sp_s, sp_c = getattr(obj, "spline", None), getattr(cp, "spline", None)
         if isinstance(sp_s, dict) and isinstance(sp_c, dict):
             ctx.check("C16.copy.isolated", sp_s is not sp_c and all(sp_s[k] is not sp_c.get(k) for k in sp_s), site,
